@@ -19,12 +19,42 @@ func parseAgainst(c *ctx, sb *zap.SegmentBase, spec sx.V, parts []int) string {
 	return parseBytesAgainst(c, data, spec, parts)
 }
 
+// normalizeMergedSx applies Content.NormalizeMerged to a wire content (doc-value fields without any
+// entry are not listed).
+func normalizeMergedSx(v sx.V) sx.V {
+	if v.K != sx.KList || len(v.L) != len(zh.ContentParts) {
+		return v
+	}
+	var dv, names []sx.V
+	for _, e := range v.L[pDV].L {
+		if len(e.L[1].L) > 0 {
+			dv = append(dv, e)
+			names = append(names, e.L[0])
+		}
+	}
+	out := append([]sx.V{}, v.L...)
+	out[pDV] = sx.List(dv)
+	out[pDVFields] = sx.List(names)
+	return sx.List(out)
+}
+
+func parseMergedAgainst(c *ctx, data []byte, spec sx.V, parts []int) string {
+	return parseBytesWith(c, data, spec, parts, true)
+}
+
 func parseBytesAgainst(c *ctx, data []byte, spec sx.V, parts []int) string {
+	return parseBytesWith(c, data, spec, parts, false)
+}
+
+func parseBytesWith(c *ctx, data []byte, spec sx.V, parts []int, merged bool) string {
 	a := ask(c, sx.L(sx.N(zh.ReqParse), sx.B(data), sx.N(uint64(zap.LegacyChunkMode))))
 	if code, bad := sx.IsErr(a); bad {
 		return fmt.Sprintf("parse_v16 rejected the file (error %d)", code)
 	}
 	c.Count("files_parsed_by_model")
+	if merged {
+		a = normalizeMergedSx(a)
+	}
 	if d := partsDiffer(a, spec, parts); len(d) > 0 {
 		return "parsed content differs in " + fmt.Sprint(d) + "\n" + describeDiff(a, spec, parts)
 	}
